@@ -1,7 +1,46 @@
-(* Props/C01.v -- emitted text is well-formed OpenSCAD with the same shape as the tree. *)
-From Coq Require Import NArith List.
-From SCAD Require Import Text.Chars Text.Lex Text.Lex_proofs.
+(* Props/C01.v -- emitted text is well-formed OpenSCAD with the same shape as the tree. Axiom-free.
+   `fmt` is Rust's Display for f64 (a section variable); the only hypothesis on it is that it prints a plain decimal
+   literal, which the correspondence run checks on every sampled number. *)
+From Coq Require Import NArith List Bool String.
+From SCAD Require Import Text.Chars Text.Tree Text.Lex Text.Parse Text.Emit Text.Lex_proofs Text.Emit_proofs Text.Parse_proofs.
 Import ListNotations.
 
-Theorem C01_lex_compositional : forall s a b, lrun s (a ++ b) = lrun (lrun s a) b.
-Proof. exact lrun_app. Qed.
+Section C01.
+  Variables num str : Type.
+  Variable fmt : num -> text.
+  Variable chars : str -> text.
+  Hypothesis fmt_plain_decimal : forall x, wf_num (fmt x).
+
+  (* the statement a tree denotes: same operation at every node, same children in the same order *)
+  Theorem C01_statement_shape : forall o cs,
+    stmt_of num str fmt chars (Node o cs) =
+    Inst (s2t (op_ident num str o)) (map erase_arg (args_of num str fmt chars o)) (map (stmt_of num str fmt chars) cs).
+  Proof. reflexivity. Qed.
+
+  (* every well-formed tree (any variant, any parameter values, any strings, empty lists, any depth and fan-out incl. zero
+     children): the emitted text lexes ... *)
+  Theorem C01_lex_emit : forall ts, forallb (@wf num str) ts = true ->
+    lex (emit_seq num str fmt chars ts) = Some (flat_map (t_tree num str fmt chars) ts).
+  Proof. exact (lex_emit_seq num str fmt chars fmt_plain_decimal). Qed.
+
+  (* ... and parses, under the module-instantiation grammar, to exactly the sequence of statements of the trees *)
+  Theorem C01_parse_emit_seq : forall ts, forallb (@wf num str) ts = true ->
+    parse_text (emit_seq num str fmt chars ts) = Some (map (fun t => TInst (stmt_of num str fmt chars t)) ts).
+  Proof.
+    intros ts Hw. unfold parse_text. rewrite (lex_emit_seq num str fmt chars fmt_plain_decimal ts Hw).
+    apply parse_program_trees. exact Hw.
+  Qed.
+
+  Corollary C01_parse_emit_tree : forall t, wf t = true ->
+    parse_text (emit num str fmt chars t) = Some [TInst (stmt_of num str fmt chars t)].
+  Proof.
+    intros t Hw. pose proof (C01_parse_emit_seq [t]) as H. cbn [forallb map emit_seq flat_map] in H.
+    rewrite Hw, app_nil_r in H. apply H. reflexivity.
+  Qed.
+End C01.
+
+(* non-vacuity: an operator without children, an empty point list and a nested tree are well-formed *)
+Example C01_wf_examples :
+  @wf nat nat (Node Union []) = true /\ @wf nat nat (Node (Polygon [] None 1%N) []) = true /\
+  @wf nat nat (Node (Translate (P3 0 0 0)) [Node (Color None (Some 3%N) None None) []; Node (Sphere 1 None None None) []]) = true.
+Proof. repeat split; reflexivity. Qed.
